@@ -365,13 +365,17 @@ impl DecayingAcceptanceSampler {
     /// Panics if after [`MAX_TRIES_PER_SAMPLE`] samples none was valid.
     ///
     /// [`reset`]: DecayingAcceptanceSampler::reset
-    #[expect(clippy::significant_drop_tightening, reason = "nothing to tighten")]
     pub fn sample_one<R: Rng>(&self, rng: &mut R) -> ValidatorIndex {
+        #[cfg(feature = "verif-hooks")]
+        crate::verif::sched_point("DecayingAcceptanceSampler::sample_one");
+        let mut sample_count = self.sample_count.lock();
+        self.sample_one_counted(&mut sample_count, rng)
+    }
+
+    /// Samples a single validator, given exclusive access to the sample counts.
+    fn sample_one_counted<R: Rng>(&self, sample_count: &mut [usize], rng: &mut R) -> ValidatorIndex {
         for _ in 0..MAX_TRIES_PER_SAMPLE {
             let sample = self.stake_weighted.sample(rng);
-            #[cfg(feature = "verif-hooks")]
-            crate::verif::sched_point("DecayingAcceptanceSampler::sample_one");
-            let mut sample_count = self.sample_count.lock();
             let p_reject = sample_count[sample.as_usize()] as f64 / self.max_samples;
             if rng.random::<f64>() >= p_reject {
                 sample_count[sample.as_usize()] += 1;
@@ -400,8 +404,13 @@ impl QuorumSamplingStrategy for DecayingAcceptanceSampler {
     }
 
     fn sample_quorum<R: Rng>(&self, rng: &mut R) -> Vec<ValidatorIndex> {
-        let samples = (0..self.k).map(|_| self.sample_one(rng)).collect();
-        self.reset();
+        // the counts are shared between all callers of this sampler: hold the lock for the
+        // whole quorum, so that concurrent callers neither see nor reset each other's counts
+        let mut sample_count = self.sample_count.lock();
+        let samples = (0..self.k)
+            .map(|_| self.sample_one_counted(&mut sample_count, rng))
+            .collect();
+        sample_count.fill(0);
         samples
     }
 }
